@@ -178,12 +178,14 @@ def obs (h : Heap) (c : Ref) : Option Obs :=
 
 /-! ### Value level (Temperature only) -/
 
-/-- Data types: 0 Temperature, 1 Energy, 2 EnergyIntensity, 3 Power, 4 EnergyFlux.
+/-- Data types: 0 Temperature, 1 Energy, 2 EnergyIntensity, 3 Power, 4 EnergyFlux; the irradiance types
+    of a Wea in W/m2: 10 DirectNormal, 11 DiffuseHorizontal, 12 GlobalHorizontal, 13 DirectHorizontal,
+    14 Irradiance.
     Units: 0 C, 1 F, 2 K (Temperature); 4 kWh, 5 kWh/m2, 6 W, 7 W/m2 (the base units of the other four).
     Anything else is not acceptable (`ValueError`).  Unit *conversion* is modelled for Temperature only. -/
 def unitOk (dtype u : Nat) : Bool :=
   (dtype = 0 && u ≤ 2) || (dtype = 1 && u = 4) || (dtype = 2 && u = 5) || (dtype = 3 && u = 6) ||
-  (dtype = 4 && u = 7)
+  (dtype = 4 && u = 7) || (10 ≤ dtype && dtype ≤ 14 && u = 7)
 
 /-- Can the model convert between units of this data type? -/
 def convOk (dtype : Nat) : Bool := dtype = 0
@@ -799,34 +801,211 @@ def mutList (h : Heap) (c : Ref) (op : LOp) : Except Err Heap :=
 
 /-- What is observed of a live object of any kind: a collection's snapshot, the content of a plain list
     the caller holds, the items of an argument list. -/
+structure CompObs where
+  kind : Nat
+  tags : List Nat
+  md : List (Nat × OV)
+  shared : List (Option (List MV))
+  members : List (Option Obs)
+deriving DecidableEq, Repr
+
 inductive ObsAny
   | coll (o : Option Obs)
   | list (v : List Rat)
   | args (l : List Operand)
+  | comp (o : CompObs)
   | none
 deriving DecidableEq, Repr
+
+/-- The nested list cells of the metadata dict stored at `r`. -/
+def mdRefsAt (h : Heap) (r : Ref) : List Ref :=
+  match h.cells r with | some (.md m) => mdRefs m | _ => []
+
+def getLoc (h : Heap) (r : Ref) : Option (List MV) :=
+  match h.cells r with | some (.loc t) => some t | _ => none
+
+/-- What is observed of a composite object (a Wea, an EPW): its tags, its own metadata, its Location
+    and the snapshots of its collections. -/
+def obsComp (h : Heap) (x : Comp) : CompObs :=
+  ⟨x.kind, x.tags, (match h.cells x.md with | some (.md m) => obsMeta h.cells m | _ => []),
+   x.shared.map (getLoc h), x.members.map (obs h)⟩
 
 def obsA (h : Heap) (c : Ref) : ObsAny :=
   match h.cells c with
   | some (.coll _) => .coll (obs h c)
   | some (.vals v false) => .list v
   | some (.args l) => .args l
+  | some (.comp x) => .comp (obsComp h x)
   | _ => .none
+
+/-! ### Wea: a Location, two irradiance collections, a metadata dict -/
+
+def getComp (h : Heap) (c : Ref) : Option Comp :=
+  match h.cells c with | some (.comp x) => some x | _ => none
+
+/-- `{'source': .., 'country': .., 'city': ..}` from the Location tokens `[source, country, city]`. -/
+def weaMd (loc : List MV) : List (Nat × OV) :=
+  [(5, .tok (loc.getD 0 "?")), (7, .tok (loc.getD 1 "?")), (6, .tok (loc.getD 2 "?"))]
+
+/-- Assemble a Wea around two member collections: its own metadata dict (built from the Location) and
+    the Location (a new object or an existing one). -/
+def mkWeaAt (pl : Heap × Ref) (tags : List Nat) (md : List (Nat × OV)) (d f : Ref) : Heap × Ref :=
+  let pm := allocMeta pl.1 (.new md)
+  pm.1.alloc (.comp ⟨0, tags, pm.2, [pl.2], [d, f]⟩)
+
+def mkWea (h : Heap) (tags : List Nat) (loc : Sum Ref (List MV))
+    (md : List (Nat × OV)) (d f : Ref) : Heap × Ref :=
+  match loc with
+  | .inl r => mkWeaAt (h, r) tags md d f
+  | .inr t => mkWeaAt (h.alloc (.loc t)) tags md d f
+
+/-- `Wea.from_dict` (the constructors that build their own collections): two new collections that
+    share one AnalysisPeriod object, each with its own metadata dict (a395d2d). -/
+def weaNew (h : Heap) (loc : List MV) (tags : List Nat) (ap : List Nat) (dts : List Nat)
+    (dni dhi : List Rat) (cont : Bool) : Except Err (Heap × Ref) :=
+  let cls : Cls := if cont then .hc else .hd
+  if dni.length ≠ dts.length ∨ dhi.length ≠ dts.length ∨ dts.isEmpty then .error .assert
+  else
+    let p1 := mkColl h ⟨.new 10 7 (.new ap) (.new (weaMd loc)), newVals true dni, dts, true, cls, cont⟩
+    match (foot p1.1 p1.2).map (·.ap) with
+    | none => .error .type
+    | some ra =>
+      let p2 := mkColl p1.1 ⟨.new 11 7 (.share ra) (.new (weaMd loc)), newVals true dhi, dts, true, cls, cont⟩
+      .ok (mkWea p2.1 tags (.inr loc) (weaMd loc) p1.2 p2.2)
+
+/-- `Wea.duplicate()`: Location, both collections and the metadata dict are copies. -/
+def weaDup (h : Heap) (w : Ref) : Except Err (Heap × Ref) :=
+  match getComp h w with
+  | some ⟨0, tags, md, [l], [d, f]⟩ =>
+    match getLoc h l, h.cells md with
+    | some t, some (.md m) =>
+      match derive .fixed h d .dup with
+      | .error e => .error e
+      | .ok (h1, d') =>
+        match derive .fixed h1 f .dup with
+        | .error e => .error e
+        | .ok (h2, f') => .ok (mkWea h2 tags (.inr t) (obsMeta h.cells m) d' f')
+    | _, _ => .error .type
+  | _ => .error .type
+
+/-- The same spec with the header's period being an existing AnalysisPeriod object. -/
+def NewSpec.withAp (sp : NewSpec) : Option Ref → NewSpec
+  | none => sp
+  | some ra =>
+    match sp.hdr with
+    | .new dt u _ md => { sp with hdr := .new dt u (.share ra) md }
+    | .share _ => sp
+
+/-- The AnalysisPeriod object that `filter_by_analysis_period` hands to the second collection too. -/
+def filterApRef (h1 : Heap) (d' : Ref) : DOp → Option Ref
+  | .filterAp _ _ _ => (foot h1 d').map (·.ap)
+  | _ => none
+
+/-- `Wea.filter_by_*`: `Wea(self.location, dni.filter(..), dhi.filter(..))` – the Location object is the
+    same, the collections are derived, the metadata dict is built anew from the Location. -/
+def weaFilter (h : Heap) (w : Ref) (op : DOp) : Except Err (Heap × Ref) :=
+  match getComp h w with
+  | some ⟨0, tags, _, [l], [d, f]⟩ =>
+    match getLoc h l with
+    | some t =>
+      match derive .fixed h d op with
+      | .error e => .error e
+      | .ok (h1, d') =>
+        -- `filter_by_analysis_period` hands the same AnalysisPeriod object to both collections
+        match specOf .fixed h1 f op with
+        | .error e => .error e
+        | .ok sp =>
+          let p2 := mkColl h1 (sp.withAp (filterApRef h1 d' op))
+          .ok (mkWea p2.1 [tags.getD 0 1, tags.getD 1 0, 0] (.inl l) (weaMd t) d' p2.2)
+    | none => .error .type
+  | _ => .error .type
+
+/-- A collection derived from a Wea (`global_horizontal_irradiance`, `direct_horizontal_irradiance`, one
+    result of `directional_irradiance`, …): new header with the period object of the direct-normal
+    collection (or a copy of it: three of the four results of `directional_irradiance` come from
+    `header.duplicate()`, 69061a8) and a deep copy of the Wea's metadata; the values are payload. -/
+def weaDerived (h : Heap) (w : Ref) (dt : Nat) (shareAp : Bool) (vals : List Rat) :
+    Except Err (Heap × Ref) :=
+  match getComp h w with
+  | some ⟨0, _, md, _, [d, _]⟩ =>
+    match src h d, h.cells md with
+    | .ok s, some (.md m) =>
+      if vals.length ≠ s.vals.length then .error .assert
+      else .ok (mkColl h ⟨.new dt 7 (if shareAp then .share s.hd.ap else .new s.ap)
+                            (.new (obsMeta h.cells m)), newVals true vals, s.k.dts,
+                          true, s.k.cls, s.k.cls = .hc⟩)
+    | _, _ => .error .type
+  | _ => .error .type
+
+/-- `Wea(location, dni, dhi)` with collections the caller holds: the Wea KEEPS these two objects
+    (container semantics; not a copying operation – see `C14_wea_init_keeps_references_counterexample`). -/
+def weaInit (h : Heap) (loc : List MV) (d f : Ref) : Except Err (Heap × Ref) :=
+  match src h d, src h f with
+  | .ok sd, .ok sf =>
+    if ¬ isHourly sd.k.cls ∨ ¬ isHourly sf.k.cls then .error .assert
+    else if ¬ alignedColl sd sf then .error .assert
+    else .ok (mkWea h [apTs sd.ap, sd.ap.getD 7 0, 0] (.inr loc) (weaMd loc) d f)
+  | _, _ => .error .type
+
+/-- A mutator applied to one of the collections of a composite object (`wea.direct_normal_irradiance…`). -/
+def compMember (h : Heap) (w : Ref) (i : Nat) (op : MOp) : Except Err Heap :=
+  match getComp h w with
+  | some x =>
+    match x.members[i]? with
+    | some mb => mutate .fixed h mb op
+    | none => .error .index
+  | none => .error .type
+
+/-- `wea.metadata[k] = v`. -/
+def compMetaSet (h : Heap) (w : Ref) (k : Nat) (v : MV) : Except Err Heap :=
+  match getComp h w with
+  | some x =>
+    match h.cells x.md with
+    | some (.md m) => .ok (h.write x.md (.md (metaSet m k (.tok v))))
+    | _ => .error .type
+  | none => .error .type
 
 /-! ### Sharing signature -/
 
 /-- Which of `_header`, `_header._metadata`, `_header._analysis_period`, `_values` (lists only: the
     identity of tuples is not state) of `r` are the same objects as those of `o`. -/
-def shareSig (h : Heap) (r o : Ref) : String :=
+def shareColl (h : Heap) (r o : Ref) : String :=
   match foot h r, foot h o with
   | some fr, some fo =>
     let listCell := match getVals h fr.vals with | some (_, t) => !t | none => false
     (if fr.hdr = fo.hdr then "h" else "") ++ (if fr.md = fo.md then "m" else "") ++
     (if fr.ap = fo.ap then "a" else "") ++ (if fr.vals = fo.vals ∧ listCell = true then "v" else "") ++
     (if fr.nested.any (fo.nested.contains ·) then "l" else "")
-  | some fr, none =>
-    -- `o` is a plain list object: is it the result's values list?
-    if fr.vals = o then "v" else ""
   | _, _ => ""
+
+/-- Sharing between collection `r` and live object `o` (a collection, a caller's list, a composite). -/
+def shareSig (h : Heap) (r o : Ref) : String :=
+  match h.cells o with
+  | some (.coll _) => shareColl h r o
+  | some (.vals _ false) =>
+    match foot h r with | some fr => if fr.vals = o then "v" else "" | none => ""
+  | some (.comp x) =>
+    -- vs each member, and `M` when the header's metadata dict is the composite's own dict
+    "/".intercalate (x.members.map (shareColl h r)) ++
+      (match foot h r with | some fr => if fr.md = x.md then "M" else "" | none => "")
+  | _ => ""
+
+/-- Sharing signature of a new composite `c` against live object `o`: per member, and `L` when they hold
+    the same Location object. -/
+def shareComp (h : Heap) (c o : Ref) : String :=
+  match getComp h c with
+  | some x =>
+    let own := "|".intercalate (x.members.map fun mb => shareSig h mb o)
+    let loc := match getComp h o with
+      | some y => if x.shared.any (y.shared.contains ·) then "L" else ""
+      | none => ""
+    own ++ loc
+  | none => "?"
+
+/-- Sharing between the members of one composite (e.g. the period object of a Wea's two collections). -/
+def shareInner (h : Heap) (c : Ref) : String :=
+  match getComp h c with
+  | some ⟨_, _, _, _, [d, f]⟩ => shareColl h d f
+  | _ => ""
 
 end LbHeap
